@@ -138,12 +138,26 @@ def hash_obligations():
                 obs.append(_mk('vform:%s:hash-inj:overrides-hash' % cname, False, 'Expr subclasses must not override hash()', own_owner or '', classes[cname].lineno))
             if not attrs:
                 obs.append(_mk('vform:%s:hash-inj:no-attributes' % cname, True, '%s has no identifying attribute besides type, shape and children' % cname, '', classes[cname].lineno, 'class ' + cname))
+            # the elements of the returned tuple must be plain (injective) projections self.X / self.X.name / self.X.hash();
+            # anything else (e.g. `self.physical and ...`) is not covered by the injectivity argument: undecided here, the
+            # bounded form-pair tier decides
+            plain = {}
+            rets = _returned(hk)
+            shape_ok = len(rets) == 1 and isinstance(rets[0], ast.Tuple)
+            if shape_ok:
+                for el in rets[0].elts:
+                    pth = _path_of(el) if isinstance(el, ast.Attribute) else (_path_of(el.func) + '()' if isinstance(el, ast.Call) and isinstance(el.func, ast.Attribute) and _path_of(el.func) and not el.args else None)
+                    plain[ast.unparse(el)] = pth
             for a in attrs:
                 want = PROJECTIONS.get((cname, a), a)
                 ok = want in paths
-                obs.append(_mk('vform:%s:hash-inj:%s' % (cname, a), ok,
-                               'attribute %s of %s flows into its hash_key (as %s): equal hash => equal %s' % (a, cname, want, a),
-                               'hash_key of %s (defined in %s) returns %s' % (cname, owner, sorted(paths)), hk.lineno if hk else 0, 'class ' + cname))
+                o = _mk('vform:%s:hash-inj:%s' % (cname, a), ok,
+                        'attribute %s of %s flows into its hash_key (as %s): equal hash => equal %s' % (a, cname, want, a),
+                        'hash_key of %s (defined in %s) returns %s' % (cname, owner, sorted(paths)), hk.lineno if hk else 0, 'class ' + cname)
+                if ok and (not shape_ok or want not in plain.values()):
+                    o.status = 'unknown'
+                    o.goal = 'attribute %s occurs in hash_key only inside a compound expression (%s): injectivity not established' % (a, list(plain))
+                obs.append(o)
         # 3. hashed helper objects
         for cname, attrs in HASHED_OBJECTS.items():
             fn, owner = _method(classes, cname, 'hash')
